@@ -3,11 +3,23 @@ From KG Require Import Prelude C10_Model C10_Spec.
 Open Scope string_scope.
 Open Scope Z_scope.
 
+(* a burst: several objects stored and enqueued at once under the real Run(); observed: the largest number of
+   sync handler executions in progress at the same time, the objects in the order their executions started, the
+   results, and the host probes afterwards *)
+Record burst := {
+  b_objs : list obj;
+  b_maxc : Z;
+  b_res : list Z;
+  b_handled : Z;
+  b_final : list host_obs
+}.
+
 Record case := {
   c_hosts : list (string * string);          (* probe host, SNI name derived from it *)
   c_xps : list (string * string);            (* cross probes: Host header, SNI of the connection it arrives on *)
   c_mid : bool;                              (* the hosts were also probed after every manager mutation *)
-  c_steps : list (op * step_obs)             (* ops with what the real gateway did *)
+  c_steps : list (op * step_obs);            (* ops with what the real gateway did *)
+  c_burst : option burst                     (* Some: the case is a burst instead of a history *)
 }.
 
 Definition res_code (r : option res) : Z :=
@@ -53,7 +65,32 @@ Fixpoint agree_steps (hosts xps : list (string * string)) (mid : bool) (w : worl
   end.
 
 (* clause layout: agree, resolves_iff, same_tenant, no_capture, deleted_stop, tls_of_owner, host_norm, alive,
-   request_by_host, mid_update *)
+   request_by_host, mid_update, serial_delivery *)
+Definition agree_burst (hosts : list (string * string)) (b : burst) : bool :=
+  let (g, rs) := burst_run (b_objs b) (b_objs b) empty_gw in
+  ((b_maxc b =? 1) && (b_handled b =? Z.of_nat (List.length (b_objs b)))
+   && list_eqb Z.eqb (map (fun r => res_code (Some r)) rs) (b_res b)
+   && forall2b host_obs_eqb (map (model_host g) hosts) (b_final b))%bool.
+
+(* burst: the property's clause on the final state is judged when the stored objects are field-valid, pairwise
+   name-disjoint and every handler execution returned ok *)
+Definition burst_final_ok (hosts : list (string * string)) (b : burst) : bool :=
+  if (forallb field_valid (b_objs b) && api_disjoint (b_objs b) && forallb (Z.eqb 1) (b_res b)
+      && (b_handled b =? Z.of_nat (List.length (b_objs b))))%bool
+  then forallb (fun x => (resolves_ok (b_objs b) (fst x) (snd x) && tls_ok (b_objs b) (fst x) (snd x))%bool)
+               (combine hosts (b_final b))
+  else true.
+
+(* serial_delivery: the model, the theorems and the other clauses all speak about events processed one at a time;
+   this is the observation that ties that assumption to the code *)
+Definition serial_ok (b : burst) : bool := b_maxc b <=? 1.
+
 Definition eval (c : case) : list bool :=
-  agree_steps (c_hosts c) (c_xps c) (c_mid c) empty_world (c_steps c)
-  :: hist_ok (c_hosts c) (c_xps c) (sinit (List.length (c_hosts c))) (c_steps c).
+  match c_burst c with
+  | None =>
+      (agree_steps (c_hosts c) (c_xps c) (c_mid c) empty_world (c_steps c)
+       :: hist_ok (c_hosts c) (c_xps c) (sinit (List.length (c_hosts c))) (c_steps c) ++ [true])%list
+  | Some b =>
+      [agree_burst (c_hosts c) b; burst_final_ok (c_hosts c) b; true; true; true; true; true; true; true; true;
+       serial_ok b]
+  end.
